@@ -124,6 +124,12 @@ LReindexed(v, g) == LV(v.base, LReindexLay(v.lay, g))
 (* blocked : sliced(first,last).reindexed(first), array_ref.hpp:1282 *)
 LBlocked(v, a, b, q) == LReindexed(LSliced(v, a, b, q), <<a>>)
 
+(* stenciled : blocked on the leading dimension, then rotated().stenciled(rest).unrotated(), array_ref.hpp:1305-1326 *)
+RECURSIVE LStenciled(_, _, _)
+LStenciled(v, g, q) ==
+  IF Len(g) = 2 THEN LBlocked(v, g[1], g[2], q)
+  ELSE LUnrotated(LStenciled(LRotated(LBlocked(v, g[1], g[2], q)), Tail(Tail(g)), q))
+
 LApply(v, o, q) ==
   CASE o.op = "index"       -> LIndex(v, o.args[1])
     [] o.op = "sliced"      -> LSliced(v, o.args[1], o.args[2], q)
@@ -144,6 +150,11 @@ LApply(v, o, q) ==
     [] o.op = "broadcast"   -> LBroadcastAt(v, o.args[1])
     [] o.op = "reindexed"   -> LReindexed(v, o.args)
     [] o.op = "blocked"     -> LBlocked(v, o.args[1], o.args[2], q)
+    [] o.op = "stenciled"   -> LStenciled(v, o.args, q)
+    [] o.op = "range"       -> LSliced(v, o.args[1], o.args[2], q)
+    [] o.op = "front"       -> LIndex(v, LFirstD(v.lay[1]))
+    [] o.op = "back"        -> LIndex(v, LFirstD(v.lay[1]) + LSize(v.lay) - 1)
+    [] o.op = "addr"        -> v
     [] o.op = "paren"       -> LParen(v, Triples(o.args), q)
 
 -----------------------------------------------------------------------------
